@@ -152,7 +152,14 @@ def stepLine (s : S) (req resp : List String) : S × List String :=
       let (m, ok) := s.model.editTask (names add) (names rem)
       let d := if (if ok then "ok" else "err") == res then [] else [s!"DIFF cron EditTask model={ok} impl={res}"]
       let stored := if res == "ok" then (s.stored.filter (fun n => !(names rem).contains n)) ++ names add else s.stored
-      ({ s with model := m, stored := stored, lastRejected := res != "ok" }, d)
+      -- C16: an accepted edit never leaves two stored entries with one identity
+      let identOf (n : String) : Option SerKey := (s.model.ent n).map (fun e =>
+        serKey { e.base with meta_ := some (SMap.insert (e.base.meta_.getD []) metaKeyScheduleHash e.hash) })
+      let ids := stored.filterMap identOf
+      let dupMon := if res == "ok" && ids.eraseDups.length != ids.length then
+        [s!"MON C16 an edit adding {names add} and removing {names rem} was accepted although two stored entries now share one identity"]
+        else []
+      ({ s with model := m, stored := stored, lastRejected := res != "ok" }, d ++ dupMon)
     | "start", [] => ({ s with model := s.model.startTimer, started := true }, [])
     | "stop", [] => ({ s with model := s.model.stopTimer, started := false }, [])
     | "adv", [t] =>
